@@ -4,6 +4,7 @@ C05 helpers: the asymmetric analytic gridder, invertible non-symmetric projectio
 Nothing here is an oracle of verde code: the analytic gridder and the projections are *inputs* of the workload whose
 closed forms the monitors in c05.py evaluate themselves.
 """
+import functools
 import weakref
 
 import numpy as np
@@ -283,3 +284,168 @@ def gen_names(rng, n_components):
         else:
             out["data_names"] = names if rng.random() < 0.5 else tuple(names)
     return out
+
+
+# ----------------------------------------------------------------------
+# equivalent spellings of the same argument
+# ----------------------------------------------------------------------
+def spelling_of(value):
+    """Name of the container / scalar type an argument was spelled with (for the evidence counters)."""
+    if value is None:
+        return "none"
+    if isinstance(value, str):
+        return "str"
+    if isinstance(value, np.ndarray):
+        return "ndarray_%s" % ("int" if value.dtype.kind in "iu" else "float")
+    if isinstance(value, (list, tuple)):
+        inner = {spelling_of(v) for v in value}
+        tag = "mixed" if len(inner) > 1 else (inner.pop() if inner else "empty")
+        return "%s_of_%s" % (type(value).__name__, tag)
+    if isinstance(value, (bool, np.bool_)):
+        return "bool"
+    if isinstance(value, np.integer):
+        return "np_int"
+    if isinstance(value, np.floating):
+        return "np_float"
+    if isinstance(value, int):
+        return "int"
+    if isinstance(value, float):
+        return "float"
+    if isinstance(value, np.random.RandomState):
+        return "RandomState"
+    return type(value).__name__
+
+
+def _scalar(rng, value):
+    """The same number as Python float/int or numpy scalar (ints only when the value is integral)."""
+    value = float(value)
+    roll = rng.random()
+    if value == int(value) and abs(value) < 2 ** 52 and roll < 0.5:
+        return int(value) if roll < 0.25 else np.int64(int(value))
+    return np.float64(value) if roll < 0.75 else value
+
+
+def spell_sequence(rng, values):
+    """The same numbers as tuple, list or ndarray, with Python or numpy scalars inside."""
+    values = [float(v) for v in values]
+    roll = rng.random()
+    if roll < 0.3:
+        integral = all(v == int(v) and abs(v) < 2 ** 52 for v in values)
+        return np.array([int(v) for v in values]) if integral and rng.random() < 0.6 else np.array(values)
+    items = [_scalar(rng, v) for v in values] if rng.random() < 0.5 else values
+    return list(items) if roll < 0.65 else tuple(items)
+
+
+def spell_count(rng, value):
+    return int(value) if rng.random() < 0.5 else np.int64(int(value))
+
+
+def spell_shape(rng, shape):
+    roll = rng.random()
+    items = [spell_count(rng, v) for v in shape]
+    if roll < 0.3:
+        return np.array([int(v) for v in shape])
+    return list(items) if roll < 0.6 else tuple(items)
+
+
+def spell_spacing(rng, spacing):
+    if isinstance(spacing, (tuple, list, np.ndarray)):
+        return spell_sequence(rng, spacing)
+    return _scalar(rng, spacing)
+
+
+EXTRA_VALUES = [0, 0.0, 0, -0.0, 1, -2.5, 13.0, 1986, 0.125]
+
+
+def spell_extra_coords(rng):
+    """extra_coords as bare scalar (incl. exactly 0 / 0.0, falsy but valid), numpy scalar, list, tuple or ndarray."""
+    roll = rng.random()
+    if roll < 0.45:
+        value = EXTRA_VALUES[int(rng.integers(0, len(EXTRA_VALUES)))]
+        kind = rng.random()
+        if kind < 0.3:
+            return np.float64(value)
+        if kind < 0.45:
+            return np.int64(int(value)) if float(value) == int(value) else np.float32(value)
+        return value
+    n = int(rng.integers(1, 3))
+    values = [EXTRA_VALUES[int(k)] for k in rng.integers(0, len(EXTRA_VALUES), n)]
+    kind = rng.random()
+    if kind < 0.3:
+        return np.array([float(v) for v in values])
+    return list(values) if kind < 0.65 else tuple(values)
+
+
+def spell_point(rng, point):
+    roll = rng.random()
+    if roll < 0.25:
+        return np.array([float(point[0]), float(point[1])])
+    items = [np.float64(point[0]), np.float64(point[1])] if rng.random() < 0.4 else [float(point[0]), float(point[1])]
+    return list(items) if roll < 0.6 else tuple(items)
+
+
+def spell_seed(rng, seed):
+    roll = rng.random()
+    if roll < 0.4:
+        return int(seed)
+    if roll < 0.7:
+        return np.int64(seed)
+    return np.random.RandomState(int(seed))
+
+
+def _apply_projection(obj, east, north, inverse=False):
+    return obj(east, north, inverse=inverse)
+
+
+def spell_projection(rng, obj):
+    """The same projection as a callable object, a plain function or a functools.partial (all carry the reference's metadata)."""
+    roll = rng.random()
+    if roll < 0.4:
+        return obj
+    if roll < 0.7:
+        def projection(east, north, inverse=False):
+            return obj(east, north, inverse=inverse)
+        out = projection
+    else:
+        out = functools.partial(_apply_projection, obj)
+    out.kind = obj.kind
+    out.inverse_lipschitz = obj.inverse_lipschitz
+    out.offsets = obj.offsets
+    out.describe = obj.describe
+    return out
+
+
+def projection_spelling(projection):
+    if isinstance(projection, functools.partial):
+        return "partial"
+    if type(projection).__name__ == "function":
+        return "function"
+    return "callable_object"
+
+
+def spell_call(rng, kwargs):
+    """Rewrite the arguments of one grid/profile/scatter call into an equivalent spelling (in place)."""
+    if "region" in kwargs:
+        kwargs["region"] = spell_sequence(rng, kwargs["region"])
+    if "shape" in kwargs:
+        kwargs["shape"] = spell_shape(rng, kwargs["shape"])
+    if "spacing" in kwargs:
+        kwargs["spacing"] = spell_spacing(rng, kwargs["spacing"])
+    if "extra_coords" in kwargs:
+        kwargs["extra_coords"] = spell_extra_coords(rng)
+    if kwargs.get("projection") is not None and hasattr(kwargs["projection"], "describe"):
+        kwargs["projection"] = spell_projection(rng, kwargs["projection"])
+    return kwargs
+
+
+def gen_int_region(rng):
+    """A region with integral bounds (so that region / spacing can also be spelled with integers)."""
+    w, s = int(rng.integers(-2000, 2000)), int(rng.integers(-2000, 2000))
+    width, height = int(rng.integers(2, 60)), int(rng.integers(2, 60))
+    return (float(w), float(w + width), float(s), float(s + height)), float(max(width, height))
+
+
+def gen_int_spacing(rng, region):
+    w, e, s, n = region
+    sp_n, sp_e = float(rng.integers(1, max(2, int(n - s)))), float(rng.integers(1, max(2, int(e - w))))
+    return (sp_n, sp_e) if rng.random() < 0.6 else float(min(sp_n, sp_e))
